@@ -168,6 +168,7 @@ def check(ctx):
     o = Ob('C05.4', 'K2+K6', 'the head is offered only on the false edge of `arrival + minimum_delay - nextafter(now) > 0`; '
                              'retries are scheduled at arrival + minimum_delay, the first attempt at now + minimum_delay')
     obs.append(o)
+    dv.check_defaults(ctx, o, [('Buffer', '__init__', 'minimum_delay'), ('Buffer', '__init__', 'capacity')])
     g = ctx.graph(c, '_pass_part_downstream', opaque=OPQ)
     hand = [n for n in g.nodes.values() if n.kind == 'cond' and foreign_deleg_call(g, n, n.ast)]
     o.count()
